@@ -78,9 +78,9 @@ MON = Monitor()
 
 
 def _wrap(source, name):
-    b = MON.new_boundary(name)
-
     def on_subscribe(observer, scheduler):
+        b = MON.new_boundary(name)      # one automaton per subscription of the boundary
+
         def on_next(i):
             MON.event(b, i)
             observer.on_next(i)
